@@ -49,8 +49,18 @@ CRYSTALS = {
 }
 
 
-def tok(k, q="-", nt="none", r=False, p="na", o=0):
-    return dict(k=k, q=q, nt=nt, r=bool(r), p=p, o=int(o))
+FACTORS = {"vasp": None, "cm": "VaspToCm", "x37": 3.7}
+
+
+def factor_value(fac):
+    from phonopy.units import VaspToTHz, VaspToCm
+    return {"vasp": VaspToTHz, "cm": VaspToCm, "x37": 3.7}[fac]
+
+
+def tok(k, q="-", nt="none", r=False, p="na", o=0, u=None):
+    if u is None:
+        u = "own" if k in ("F", "GV") else "na"
+    return dict(k=k, q=q, nt=nt, r=bool(r), p=p, o=int(o), u=u)
 
 
 class World:
@@ -76,11 +86,12 @@ class World:
         self.nband = 3 * len(self.cell)
         self._cache = {}
 
-    def phonopy(self, nac, dec, ref=False):
-        key = (nac, dec, ref)
+    def phonopy(self, nac, dec, ref=False, fac="vasp"):
+        key = (nac, dec, ref, fac)
         if key not in self.objs:
             with contextlib.redirect_stdout(io.StringIO()):
                 ph = Phonopy(self.cell, supercell_matrix=self.S, primitive_matrix=np.eye(3), log_level=0,
+                             factor=factor_value(fac),
                              dynamical_matrix_decimals=(DECIMALS if dec else None))
                 if self.fc is None:
                     self.fc = self.sign * self.orc.supercell_fc(self.S, ph.supercell)
@@ -110,14 +121,14 @@ class World:
         self._cache[key] = d
         return d
 
-    def gvref(self, nac, dec, q, pert):
+    def gvref(self, nac, dec, q, pert, fac="vasp"):
         """group velocities from a fresh GroupVelocity object on the CURRENT dynamical-matrix object of
         sigma.  Cached per dynamical-matrix object: the direct getters rebuild it, and the Gonze-Lee data
         set of a rebuilt object differs in the last bit (OpenMP reductions), which the finite difference
         (dq = 1e-5) and 1/(2 omega) of group velocities amplify to ~1e-6."""
-        ph = self.phonopy(nac, dec)
+        ph = self.phonopy(nac, dec, fac=fac)
         dmo = ph.dynamical_matrix
-        key = ("GV", nac, dec, tuple(np.round(q, 12)), None if pert is None else tuple(np.round(pert, 12)))
+        key = ("GV", nac, dec, fac, tuple(np.round(q, 12)), None if pert is None else tuple(np.round(pert, 12)))
         hit = self._cache.get(key)
         if hit is not None and hit[0] is dmo:
             return hit[1]
@@ -194,18 +205,24 @@ class Classifier:
         fr = np.asarray(fr, dtype=float)
         if fr.shape != (self.w.nband,):
             return [tok("X")]
-        lam_out = freq_to_lambda(fr, self.factor)
         out = []
         best = None
-        for f, d, lam in self.cands:
-            e = np.abs(lam_out - lam).max() / self.scale
-            if e < TOL_L:
-                best = e if best is None else min(best, e)
-                out.append(tok("F", f["q"], f["nt"], f["r"], o=0))
-            if j > 1:
-                e = np.abs(np.sort(lam_out) - lam).max() / self.scale
+        # the object's own unit conversion factor, and the default one if the object has another
+        units = [("own", self.factor)]
+        if self.cfg.get("fac", "vasp") != "vasp":
+            units.append(("default", factor_value("vasp")))
+        for uname, fac in units:
+            lam_out = freq_to_lambda(fr, fac)
+            for f, d, lam in self.cands:
+                e = np.abs(lam_out - lam).max() / self.scale
                 if e < TOL_L:
-                    out.append(tok("F", f["q"], f["nt"], f["r"], o=j))
+                    if uname == "own":
+                        best = e if best is None else min(best, e)
+                    out.append(tok("F", f["q"], f["nt"], f["r"], o=0, u=uname))
+                if j > 1:
+                    e = np.abs(np.sort(lam_out) - lam).max() / self.scale
+                    if e < TOL_L:
+                        out.append(tok("F", f["q"], f["nt"], f["r"], o=j, u=uname))
         if best is not None:
             self._note("L", best)
         return out or [tok("X")]
@@ -249,7 +266,7 @@ class Classifier:
             perts.append(("dir", self.dirvec))
         for qid, qv in self.qmap.items():
             for pname, pv in perts:
-                ref = self.w.gvref(self.cfg["nac"], self.cfg["dec"], qv, pv)
+                ref = self.w.gvref(self.cfg["nac"], self.cfg["dec"], qv, pv, self.cfg.get("fac", "vasp"))
                 sc = max(1.0, np.abs(ref).max())
                 e = np.abs(g - ref).max() / sc
                 if e < TOL_GV:
@@ -448,7 +465,7 @@ def hdf5_records(path, mem, want):
 def run_case(world, cfg, rng, comm, with_files, evid):
     """Execute one configuration on the real code -> event dict."""
     nac, dec = cfg["nac"], cfg["dec"]
-    ph = world.phonopy(nac, dec)
+    ph = world.phonopy(nac, dec, fac=cfg.get("fac", "vasp"))
     factor = ph.unit_conversion_factor
     path = cfg["path"]
     qvecs, dirvec = realise_q(cfg, rng, comm)
